@@ -17,6 +17,8 @@ def main():
             jobs.append((fl, exe))
     jobs.append(("asan", "record_algo"))
     jobs.append(("rel", "record_sched"))
+    jobs.append(("ubsan-rel", "record"))
+    jobs.append(("dbg", "record"))
     jobs.append(("tsan", "record_sched"))
     vlib.build_many(jobs)
     print("setup ok: %d harness builds" % len(jobs))
